@@ -162,7 +162,8 @@ def cav_dp(ctx):
         dt, pps = dts[i % len(dts)]
         dur = rng.choice([2, 3, 4.5, 7, 12, 25, 40]) if dt < 0.1 or i % 2 else rng.choice([2, 3, 5])
         n = int(round(dur / dt)) + 1
-        amp = rng.choice([0.1, 0.2, 0.245, 0.25, 0.3, 1.0])   # the gate is 0.025 g = 0.24525 m/s2
+        # the gate is 0.025 g = 0.24525 m/s2 (+ source hints: amplitudes at / around every new float constant, read in m/s2 and in g)
+        amp = rng.choice([0.1, 0.2, 0.245, 0.25, 0.3, 1.0] + gen.hint_values(ctx, 1e-3, 20.0, cap=14, maps=(lambda c: c, lambda c: 9.81 * c)))
         shape = rng.choice(['noise', 'burst', 'quiet', 'boundary'])
         if shape == 'noise':
             a = np.array([rng.gauss(0, 1) for _ in range(n)]) * amp
@@ -316,8 +317,10 @@ def x2_large(ctx):
     from eqsig import im
     rng = ctx.rng
     quick = ctx.tier == 'quick'
-    for n in ([6000, 25000, 60000] if quick else [6000, 25000, 60000, 5000, 5001, 8192, 16384, 40000, 100000]):
-        dt = rng.choice([0.01, 0.005, 0.02, 0.0078125])
+    # source hints: record lengths around every new integer constant, time steps at / around every new float constant (and its reciprocal) of eqsig/im.py
+    hv_dt = gen.hint_values(ctx, 1e-4, 10.0, cap=10, maps=(lambda c: c, lambda c: 1 / c))
+    for n in ([6000, 25000, 60000] if quick else [6000, 25000, 60000, 5000, 5001, 8192, 16384, 40000, 100000]) + gen.hint_sizes(ctx, lo=65, hi=1000000, cap=8):
+        dt = rng.choice([0.01, 0.005, 0.02, 0.0078125] + hv_dt)
         a = _x2_envelope(rng, n, rng.choice([1.0, 1e-3, 50.0]))
         a[-1] = 0.0
         inputs = {'a': f'gaussian noise x gaussian envelope, n={n}, last sample 0 (seed-derived)', 'dt': dt, 'head': a[:4]}
@@ -336,7 +339,7 @@ def x2_large(ctx):
             'calc_integral_of_abs_acceleration': np.cumsum(np.abs(a)) * dt,
             'calc_unit_kinetic_energy': np.cumsum(np.abs(np.diff(np.concatenate([[0.0], ke])))),
         }
-        m = rng.choice([n // 2, n - 1, 4097, 5000])
+        m = rng.choice([n // 2, n - 1, 4097, 5000] if n >= 5000 else [n // 2, n - 1, n - 2, n // 3])
         pre = _x2_all(im, eqsig.AccSignal(a[:m], dt))
         npad = rng.choice([1000, 5000, 4096])
         pad = _x2_all(im, eqsig.AccSignal(np.concatenate([a, np.zeros(npad)]), dt), X2_ACC_BASED)
@@ -365,7 +368,8 @@ def x2_large(ctx):
                            {**inputs, 'm': npad})
         ctx.oracle('input array unchanged', bool(np.array_equal(a, snap) and np.array_equal(np.asarray(asig.values), snap)), inputs)
     # standardised CAV over many one-second windows
-    for dt, pps, secs in ([(0.01, 100, 130), (0.005, 200, 300)] if quick else [(0.01, 100, 130), (0.005, 200, 300), (0.02, 50, 1200), (0.0125, 80, 77), (0.25, 4, 6000)]):
+    for dt, pps, secs in ([(0.01, 100, 130), (0.005, 200, 300)] if quick else [(0.01, 100, 130), (0.005, 200, 300), (0.02, 50, 1200), (0.0125, 80, 77), (0.25, 4, 6000)]) + \
+            [(0.01, 100, c) for c in gen.hint_sizes(ctx, lo=3, hi=4000, cap=4)] + [(0.25, 4, c // 4 + 1) for c in gen.hint_sizes(ctx, lo=4001, hi=400000, cap=3)]:    # source hints: windows / samples
         n = secs * pps + 1 + rng.randrange(pps)
         a = _x2_envelope(rng, n, rng.choice([0.3, 1.0]))
         k0 = rng.randrange(1, secs - 1) * pps
